@@ -465,7 +465,7 @@ def status_pairs(rep, exe):
     n = 0
     for fmt in ("pax", "paxr", "7zip", "zip", "xar", "iso9660", "gnutar", "ustar", "newc", "mtree"):
         variants = [("alone", [ent(path=bad, size=3, body=b"abc")]),
-                    ("with an ACL", [ent(path=bad, size=3, body=b"abc", flags=16)]),
+                    ("with an ACL", [ent(path=bad, size=3, body=b"abc", flags=64)]),
                     ("behind another member", [ent(path=b"ok.txt", size=3, body=b"abc"), ent(path=bad, size=3, body=b"abc")]),
                     ("behind an empty member", [ent(path=b"empty", size=0), ent(path=bad, size=3, body=b"abc")])]
         lines = [case(fmt, es, loc=1) for _, es in variants]
